@@ -16,6 +16,8 @@ func checkC04(c *Check) {
 	L := c.L
 	c.Expl = "Structural mechanisms behind 'statically ill-formed programs are never accepted': every parsed statement passes the resolver and the type checker (R4.1); the loop-depth counter, scope stack and current-function marker are balanced on every path (R4.2); for every static fault class of the property the diagnostic exists in its function and is control-dependent on the guarding predicate (R4.3); the type checker's admissibility tables - operators, casts and every value context (initialiser, assignment, argument, Referenz argument, return, condition, loop header, list literal, indexing) - evaluated cell-wise over the type classes (engine E2) admit nothing that the reference table of DDP's static rules rejects (R4.4); sibling rules agree (R4.5). Not decided: that the predicates are right for every program beyond the class representatives; name resolution for every scope shape."
 	checkC04SpeculativeErrors(c)
+	checkRedeclarationAlwaysReported(c)
+	checkSilentEvaluation(c, c.Rule("R4.8", "a trial type check (EvaluateSilent) leaves the shared diagnostic state as it found it", 3))
 	// R4.4 / R4.5 on the cell tables
 	lines, t, ctx, _ := computeAllCheckerLines(L, c.Tier)
 	r4 := c.Rule("R4.4", "the type checker admits no (operator | context, type classes) combination that the reference table rejects", 1000)
@@ -686,5 +688,158 @@ func checkC04SpeculativeErrors(c *Check) {
 				r.Decide(mfa.StateAt(b, i)&1 != 0, key, ret.Pos(), "apply(errorHandler, errs) precedes the return", "a call built from a candidate is returned without handing the candidate's diagnostics to the error handler")
 			}
 		}
+	}
+}
+
+// checkSilentEvaluation (R4.8 / R7.8): (*Typechecker).EvaluateSilent type-checks an expression "on trial" (alias matching,
+// Negiere). Whatever the error helper of the type checker writes when a trial fails - the module's Faulty flag and the
+// panic-mode flag it shares with the parser through a pointer - and the error handler EvaluateSilent itself swaps out
+// must be saved BY VALUE before the evaluation and written back afterwards (directly or in a defer). Otherwise a failed
+// trial leaves the parser in panic mode and the diagnostics of the rest of the statement are suppressed.
+func checkSilentEvaluation(c *Check, r *Rule) {
+	L := c.L
+	fi := L.Fn("src/parser/typechecker.(*Typechecker).EvaluateSilent")
+	errFn := L.Fn("src/parser/typechecker.(*Typechecker).err")
+	if fi == nil || errFn == nil {
+		r.Und("typechecker.(*Typechecker).EvaluateSilent", token.NoPos, "EvaluateSilent or the error helper not found")
+		return
+	}
+	info := fi.Pkg.TypesInfo
+	// access path relative to the receiver: Module.Ast.Faulty, *panicMode
+	var path func(e ast.Expr) string
+	path = func(e ast.Expr) string {
+		switch x := ast.Unparen(e).(type) {
+		case *ast.Ident:
+			if v, ok := info.Uses[x].(*types.Var); ok && !v.IsField() {
+				return "" // the receiver (or a local): root
+			}
+			return "?"
+		case *ast.SelectorExpr:
+			p := path(x.X)
+			if p == "?" {
+				return "?"
+			}
+			if p != "" {
+				p += "."
+			}
+			return p + selName(info, x)
+		case *ast.StarExpr:
+			p := path(x.X)
+			if p == "?" {
+				return "?"
+			}
+			return "*" + p
+		}
+		return "?"
+	}
+	isRecvRooted := func(f *FuncInfo, e ast.Expr) bool {
+		for {
+			switch x := ast.Unparen(e).(type) {
+			case *ast.SelectorExpr:
+				e = x.X
+			case *ast.StarExpr:
+				e = x.X
+			case *ast.Ident:
+				return isParamOf(info, f, x) && f.Decl.Recv != nil && len(f.Decl.Recv.List) == 1 && len(f.Decl.Recv.List[0].Names) == 1 && info.Uses[x] == info.Defs[f.Decl.Recv.List[0].Names[0]]
+			default:
+				return false
+			}
+		}
+	}
+	footprint := map[string]bool{}
+	ast.Inspect(errFn.Decl.Body, func(n ast.Node) bool {
+		if as, ok := n.(*ast.AssignStmt); ok {
+			for _, l := range as.Lhs {
+				if isRecvRooted(errFn, l) {
+					if p := path(l); p != "?" && p != "" {
+						footprint[p] = true
+					}
+				}
+			}
+		}
+		return true
+	})
+	// the evaluation call
+	var evalCall *ast.CallExpr
+	ast.Inspect(fi.Decl.Body, func(n ast.Node) bool {
+		if call, ok := n.(*ast.CallExpr); ok && evalCall == nil {
+			if fn := Callee(info, call); fn != nil && nameIs(fn, "Evaluate") {
+				evalCall = call
+			}
+		}
+		return true
+	})
+	if evalCall == nil {
+		r.Und("typechecker.(*Typechecker).EvaluateSilent|evaluation", fi.Decl.Pos(), "no call of Evaluate found")
+		return
+	}
+	// what EvaluateSilent itself replaces before the evaluation
+	ast.Inspect(fi.Decl.Body, func(n ast.Node) bool {
+		if as, ok := n.(*ast.AssignStmt); ok && as.Pos() < evalCall.Pos() && enclosingFuncLit(fi.Decl.Body, as) == nil && as.Tok == token.ASSIGN {
+			for _, l := range as.Lhs {
+				if isRecvRooted(fi, l) {
+					if p := path(l); p != "?" && p != "" {
+						footprint[p] = true
+					}
+				}
+			}
+		}
+		return true
+	})
+	if len(footprint) < 2 {
+		r.Und("typechecker.(*Typechecker).EvaluateSilent|footprint", fi.Decl.Pos(), "the state written by the error helper was not found")
+		return
+	}
+	saved := map[string]types.Object{}
+	ast.Inspect(fi.Decl.Body, func(n ast.Node) bool {
+		as, ok := n.(*ast.AssignStmt)
+		if !ok || as.Tok != token.DEFINE || len(as.Lhs) != len(as.Rhs) || as.Pos() > evalCall.Pos() {
+			return true
+		}
+		for i, rh := range as.Rhs {
+			if isRecvRooted(fi, rh) {
+				if p := path(rh); footprint[p] {
+					if id, ok := as.Lhs[i].(*ast.Ident); ok {
+						saved[p] = info.Defs[id]
+					}
+				}
+			}
+		}
+		return true
+	})
+	restored := map[string]bool{}
+	ast.Inspect(fi.Decl.Body, func(n ast.Node) bool {
+		as, ok := n.(*ast.AssignStmt)
+		if !ok || as.Tok != token.ASSIGN || len(as.Lhs) != len(as.Rhs) {
+			return true
+		}
+		// after the evaluation in program order, or inside a deferred literal
+		inDefer := false
+		if fl := enclosingFuncLit(fi.Decl.Body, as); fl != nil {
+			if _, isDefer := parentOf(fi.Decl.Body, parentOf(fi.Decl.Body, fl)).(*ast.DeferStmt); isDefer {
+				inDefer = true
+			}
+		}
+		if !inDefer && as.Pos() < evalCall.End() {
+			return true
+		}
+		for i, l := range as.Lhs {
+			if !isRecvRooted(fi, l) {
+				continue
+			}
+			p := path(l)
+			if id, ok := ast.Unparen(as.Rhs[i]).(*ast.Ident); ok && saved[p] != nil && info.Uses[id] == saved[p] {
+				restored[p] = true
+			}
+		}
+		return true
+	})
+	var names []string
+	for p := range footprint {
+		names = append(names, p)
+	}
+	sortStrings(names)
+	for _, p := range names {
+		r.Decide(saved[p] != nil && restored[p], "typechecker.(*Typechecker).EvaluateSilent|"+p+" saved and restored", fi.Decl.Pos(), "saved by value before the trial evaluation and written back after it", "the trial evaluation can change "+p+" (the error helper writes it), and EvaluateSilent does not save its value before and write it back after: a failed trial leaves the flag set, the parser stays in panic mode and the diagnostics of the rest of the statement are suppressed (an ill-typed program is accepted)")
 	}
 }
